@@ -85,18 +85,6 @@ pub struct ScenarioRes {
     cfg: HashMap<(usize, i64), InstSpec>,
 }
 
-/// scenario entity slots <-> real entities; gamepad ids -> entities
-#[derive(Resource, Default)]
-pub struct Slots {
-    ents: HashMap<i64, Entity>,
-    pads: HashMap<i64, Entity>,
-}
-impl Slots {
-    fn slot_of(&self, e: Entity) -> i64 {
-        self.ents.iter().find(|(_, &v)| v == e).map(|(&k, _)| k).unwrap_or(-1)
-    }
-}
-
 fn id_list(s: &Sx) -> Vec<(i64, Sx)> {
     s.list()
         .iter()
@@ -291,7 +279,7 @@ fn update_ops(mut commands: Commands, mut pending: ResMut<PendingOps>, mut slots
             "OSpawn" => {
                 let slot = a[0].int();
                 if slots.ents.contains_key(&slot) {
-                    continue;
+                    continue; // (one Commands op per frame: the occupant cannot have been despawned in this batch)
                 }
                 let id = commands.spawn_empty().id();
                 slots.ents.insert(slot, id);
@@ -325,6 +313,49 @@ fn first_inject(world: &mut World) {
     let edits = std::mem::take(&mut world.resource_mut::<PendingFirst>().0);
     for e in edits {
         apply_raw_events(world, &e);
+    }
+}
+
+/// applies one op to the world directly (between frames, or as the command a reacting observer queued)
+pub fn world_op(world: &mut World, op: &Sx) {
+    let (h, a) = op.app();
+    match h {
+        "OSpawn" => {
+            let slot = a[0].int();
+            if let Some(&cur) = world.resource::<Slots>().ents.get(&slot) {
+                if world.get_entity(cur).is_ok() {
+                    return;
+                }
+                world.resource_mut::<Slots>().old.insert(cur, slot); // despawned earlier in this step
+            }
+            let id = world.spawn_empty().id();
+            world.resource_mut::<Slots>().ents.insert(slot, id);
+            for c in a[1].list() {
+                with_ctx!(c.int(), C => { world.entity_mut(id).insert(C {}); });
+            }
+        }
+        "OInsert" => {
+            if let Some(&id) = world.resource::<Slots>().ents.get(&a[0].int()) {
+                if world.get_entity(id).is_ok() {
+                    with_ctx!(a[1].int(), C => { world.entity_mut(id).insert(C {}); });
+                }
+            }
+        }
+        "ORemove" => {
+            if let Some(&id) = world.resource::<Slots>().ents.get(&a[0].int()) {
+                if world.get_entity(id).is_ok() {
+                    with_ctx!(a[1].int(), C => { world.entity_mut(id).remove::<C>(); });
+                }
+            }
+        }
+        "ODespawn" => {
+            // the slot stays mapped until the closing events have been reported
+            if let Some(&id) = world.resource::<Slots>().ents.get(&a[0].int()) {
+                world.despawn(id);
+            }
+        }
+        "ORebuild" => world.trigger(RebuildInputContexts),
+        o => panic!("bad op {o}"),
     }
 }
 
@@ -463,7 +494,8 @@ impl Runner {
         app.insert_resource(log.clone());
         app.insert_resource(ScenarioRes { cfg });
         app.insert_resource(Universe { menu: menu.clone(), ents });
-        app.init_resource::<PendingOps>().init_resource::<PendingFirst>().init_resource::<ProbeSnaps>();
+        app.init_resource::<PendingOps>().init_resource::<PendingFirst>().init_resource::<ProbeSnaps>().init_resource::<Reactions>();
+        app.insert_resource(ReactHook(world_op));
         let mut slots = Slots::default();
         for p in 0..npads {
             let id = app.world_mut().spawn(Gamepad::default()).id();
@@ -513,38 +545,7 @@ impl Runner {
 
     fn direct_op(&mut self, op: &Sx) {
         let world = self.app.world_mut();
-        let (h, a) = op.app();
-        match h {
-            "OSpawn" => {
-                let slot = a[0].int();
-                if world.resource::<Slots>().ents.contains_key(&slot) {
-                    return;
-                }
-                let id = world.spawn_empty().id();
-                world.resource_mut::<Slots>().ents.insert(slot, id);
-                for c in a[1].list() {
-                    with_ctx!(c.int(), C => { world.entity_mut(id).insert(C {}); });
-                }
-            }
-            "OInsert" => {
-                if let Some(&id) = world.resource::<Slots>().ents.get(&a[0].int()) {
-                    with_ctx!(a[1].int(), C => { world.entity_mut(id).insert(C {}); });
-                }
-            }
-            "ORemove" => {
-                if let Some(&id) = world.resource::<Slots>().ents.get(&a[0].int()) {
-                    with_ctx!(a[1].int(), C => { world.entity_mut(id).remove::<C>(); });
-                }
-            }
-            "ODespawn" => {
-                // the slot stays mapped until the closing events have been reported
-                if let Some(&id) = world.resource::<Slots>().ents.get(&a[0].int()) {
-                    world.despawn(id);
-                }
-            }
-            "ORebuild" => world.trigger(RebuildInputContexts),
-            o => panic!("bad op {o}"),
-        }
+        world_op(world, op);
         world.flush();
     }
 
@@ -692,7 +693,10 @@ impl Runner {
             slots.ents.iter().filter(|(_, &e)| world.get_entity(e).is_err()).map(|(&k, _)| k).collect()
         };
         for k in dead {
-            world.resource_mut::<Slots>().ents.remove(&k);
+            let mut slots = world.resource_mut::<Slots>();
+            if let Some(e) = slots.ents.remove(&k) {
+                slots.old.insert(e, k);
+            }
         }
         let _ = &self.cfg_actions;
         format!(
@@ -717,6 +721,37 @@ pub fn run_scenario(sc: &Sx) -> String {
         // several scenarios judged together (C17): each runs in its own App
         let ts: Vec<String> = a[0].list().iter().map(run_scenario).collect();
         return format!("(mtrace [{}])", ts.join(" "));
+    }
+    if h == "reacting" {
+        // (reacting [ (mkReact aid kind entity op) .. ] scenario)
+        let (_, b) = a[1].app();
+        let mut r = Runner::new(&a[1]);
+        let rs: Vec<Reaction> = a[0]
+            .list()
+            .iter()
+            .map(|x| {
+                let (_, f) = x.app();
+                let kind = match f[1].atom() {
+                    "EStarted" => "EStarted",
+                    "EOngoing" => "EOngoing",
+                    "EFired" => "EFired",
+                    "ECanceled" => "ECanceled",
+                    _ => "ECompleted",
+                };
+                Reaction { aid: f[0].int() as usize, kind, slot: f[2].int(), op: f[3].clone(), fired: false }
+            })
+            .collect();
+        r.app.world_mut().resource_mut::<Reactions>().0 = rs;
+        let mut outs = vec![];
+        for st in b[3].list() {
+            let o = r.step(st);
+            let stop = o.ends_with("true)");
+            outs.push(o);
+            if stop {
+                break;
+            }
+        }
+        return format!("(trace [{}])", outs.join(" "));
     }
     if h == "routed" {
         // (routed [routes per (c,e)] scenario): same steps, bindings built through the route expressions
